@@ -778,3 +778,121 @@ def replay_substitute_float(cfg, model, check):
     except Exception as ex:
         return False, "raised %s: %s" % (type(ex).__name__, ex)
     return True, "no violation on the real code for x=%r mn=%r mx=%r v=%r w=%r" % (x, mn, mx, v, w)
+
+
+# ----------------------------------------------------------------------------------------------------------------
+# Generator.visit_float composed with Random.random_float and Validator.visit_float (C01 for floats)
+
+def explore_generate_float(cfg, eb=11, sb=53, z3_timeout=60, budget_s=1e9):
+    """cfg = (has_min, has_max, precision or None).  Runs the real Generator.visit_float (default-bound widening, precision
+    dispatch) -> real Random.random_float (stubbed `random`) -> real Validator.visit_float on the generated value.
+    Assumes non-NaN bounds with min <= max; with a precision both bounds must be declared and |bound| * 10**p < 2**51
+    (the default bounds +-2**63 times 10**p are not exact integers in the format: outside E2's reach, decided by E1's
+    tape harnesses without precision and by kernel 1 for the grid arithmetic)."""
+    global E
+    import d42.generation  # noqa: F401
+    from d42.declaration.types import FloatSchema
+    from d42.declaration.types._float_schema import FloatProps
+    from d42.generation import Generator, Random, RegexGenerator
+    from d42.validation import Validator
+    has_min, has_max, p = cfg
+    if p is not None and not (has_min and has_max):
+        return []
+    rmod = sys.modules["d42.generation._random"]
+    real_random = rmod.random
+    E = Engine(eb, sb)
+    E.round_lemma_uses = E.round_model_uses = 0
+    F = E.F
+    records = []
+    t_start = time.time()
+    with _Shims():
+        try:
+            while True:
+                E.reset()
+                stub = StubRandom()
+                rmod.random = stub
+                mn, mx = z3.FP("mn", F), z3.FP("mx", F)
+                assume = [z3.Not(z3.fpIsNaN(mn)), z3.Not(z3.fpIsNaN(mx)), z3.Not(z3.fpIsInf(mn)), z3.Not(z3.fpIsInf(mx))]
+                if has_min and has_max:
+                    assume.append(z3.fpLEQ(mn, mx))
+                if p is not None:
+                    B = float((1 << (sb - 2)) // 10 ** p)
+                    assume += [z3.fpLEQ(z3.FPVal(-B, F), mn), z3.fpLEQ(mx, z3.FPVal(B, F))]
+                reg = {}
+                if has_min:
+                    reg["min"] = SymFP(mn)
+                if has_max:
+                    reg["max"] = SymFP(mx)
+                if p is not None:
+                    reg["precision"] = p
+                S = FloatSchema(FloatProps(reg))
+                checks = []
+                try:
+                    rnd = Random()
+                    v = Generator(rnd, RegexGenerator(rnd)).visit_float(S)
+                    if not isinstance(v, (SymFP, float)):
+                        outcome, checks = "generated a non-float", [("generated-type", z3.BoolVal(True))]
+                    else:
+                        vv = v if isinstance(v, SymFP) else SymFP(z3.FPVal(float(v), F))
+                        errs = Validator().visit_float(S, value=vv).get_errors()
+                        outcome = "generated, " + ("accepted" if not errs else "REJECTED:" + ",".join(type(e).__name__ for e in errs))
+                        checks.append(("generated-value-validates", z3.BoolVal(bool(errs))))
+                except UnwindingFailure:
+                    raise
+                except Exception as ex:
+                    outcome, checks = "raise %s" % type(ex).__name__, [("no-exception", z3.BoolVal(True))]
+                for name, bad in checks:
+                    verdict, model, dt = _solve(assume + E.pc + stub.facts + [bad], z3_timeout)
+                    records.append({"cfg": list(cfg), "decisions": list(E.decisions[:E.pos]), "outcome": outcome, "check": name,
+                                    "verdict": verdict, "model": model, "solver_s": dt, "draws": [k for k, _ in stub.draws]})
+                if time.time() - t_start > budget_s:
+                    records.append({"cfg": list(cfg), "decisions": [], "outcome": "exploration budget exhausted", "check": "budget",
+                                    "verdict": "unknown", "model": None, "solver_s": 0.0})
+                    break
+                if not E.next_path():
+                    break
+        finally:
+            rmod.random = real_random
+    return records
+
+
+def replay_generate_float(cfg, model):
+    from d42 import fake, schema, validate
+    has_min, has_max, p = cfg
+    rmod = sys.modules["d42.generation._random"]
+    mn, mx = model.get("mn") or 0.0, model.get("mx") or 0.0
+    draws = [model[k] for k in sorted(model) if k[0] in "ru" and k[1:].isdigit()]
+    s = schema.float
+    if has_min:
+        s = s.min(mn)
+    if has_max:
+        s = s.max(mx)
+    if p is not None:
+        s = s.precision(p)
+
+    class Fixed:
+        i = 0
+
+        def randint(self, a, b):
+            if a > b:
+                raise ValueError("empty range")
+            v = draws[self.i] if self.i < len(draws) else a
+            self.i += 1
+            return min(max(int(v), a), b)
+
+        def uniform(self, a, b):
+            v = draws[self.i] if self.i < len(draws) else a
+            self.i += 1
+            return v
+
+    saved = rmod.random
+    rmod.random = Fixed()
+    try:
+        try:
+            v = fake(s)
+        except Exception as ex:
+            return False, "fake(%r) raised %s: %s" % (s, type(ex).__name__, ex)
+    finally:
+        rmod.random = saved
+    ok = not validate(s, v).has_errors()
+    return ok, "fake(%r) with draws %r returned %r (%s)" % (s, draws, v, "accepted" if ok else "rejected by its own schema")
